@@ -108,6 +108,10 @@ impl Env {
     }
 
     pub async fn finish(mut self) {
+        if std::env::var("PGVERIF_DUMP").is_ok() {
+            dump_log(&self.log());
+            eprintln!("--- pgcat stderr ---\n{}", self.pg.stderr_tail(6000));
+        }
         self.pg.kill();
         self.shared.stop();
     }
@@ -182,4 +186,36 @@ pub fn rx_events(log: &[Event]) -> Vec<&Event> {
 /// A reply is "well formed" when it consists of whole messages and ends with ReadyForQuery.
 pub fn well_formed_ready(msgs: &[Msg], end: &ReadEnd) -> bool {
     matches!(end, ReadEnd::Ready(_)) && msgs.last().map(|m| m.code == b'Z' && m.body.len() == 1).unwrap_or(false)
+}
+
+pub fn dump_log(log: &[Event]) {
+    for e in log {
+        let d = match &e.kind {
+            EvKind::Open { user, database, .. } => format!("OPEN user={} db={}", user, database),
+            EvKind::AuthFail => "AUTHFAIL".into(),
+            EvKind::Cancel { pid, key } => format!("CANCEL pid={} key={}", pid, key),
+            EvKind::Rx { code, tags, sql, own, snap, raw } => format!(
+                "RX '{}' len={} tags={:?} own={} txn={} copy={} batch={} sql={:?}",
+                *code as char,
+                raw.len(),
+                tags.iter().map(|t| t.short()).collect::<Vec<_>>(),
+                own,
+                snap.txn as char,
+                snap.copy,
+                snap.batch_open,
+                sql.as_ref().map(|s| s.chars().take(90).collect::<String>())
+            ),
+            EvKind::Tx { bytes, for_seq } => format!(
+                "TX {} bytes for seq {} codes={}",
+                bytes.len(),
+                for_seq,
+                proto::split_all(bytes).map(|(m, _)| m.iter().map(|x| x.code as char).take(30).collect::<String>()).unwrap_or_default()
+            ),
+            EvKind::Exec { tag, stmt_name, sql, .. } => format!("EXEC {:?} name={:?} sql={:?}", tag.map(|t| t.short()), stmt_name, sql.chars().take(60).collect::<String>()),
+            EvKind::ProtoErr { code, tag } => format!("PROTOERR {} {:?}", code, tag.map(|t| t.short())),
+            EvKind::Close { by_terminate } => format!("CLOSE terminate={}", by_terminate),
+            EvKind::Ctl(s) => format!("CTL {}", s),
+        };
+        eprintln!("{:>5} {:>8}us srv={} conn={} {}", e.seq, e.t_us, if e.server == usize::MAX { -1 } else { e.server as i64 }, e.conn, d);
+    }
 }
